@@ -181,7 +181,7 @@ func (s *Server) RegisterName(name string, rcvr interface{}) (methodNames []stri
 }
 
 func isProtectedMethodName(name string) bool {
-	return name == "SignTransaction" || name == "Sign" || name == "SendTransaction"
+	return name == "SignTransaction" || name == "Sign" || name == "SendTransaction" || name == "SignAndSendTransaction"
 }
 
 var debugrpc = sense.EnvBool("DEBUG_RPC")
